@@ -45,6 +45,23 @@ Theorem C01_leading_block_is_ordered_product :
 Proof. exact (fun K o SRK => @build_leading_block K o SRK). Qed.
 Print Assumptions C01_leading_block_is_ordered_product.
 
+(* "ordered": the ordered product is a homomorphism from concatenation of component lists
+   (what is added later multiplies from the left), and a group is transparent - it
+   contributes exactly the ordered product of its own components, wherever it stands *)
+Theorem C01_ordered_product_concatenates :
+  forall (K : Type) (o : ops K) (e : env (K:=K)) (N : nat) (sp1 sp sp2 : list (comp (K:=K)))
+         m1 m2 hin hout (U : mat),
+    prod_small_list (o:=o) e N (sp1 ++ sp2) U
+      = prod_small_list (o:=o) e N sp2 (prod_small_list (o:=o) e N sp1 U) /\
+    prod_small_list (o:=o) e N (sp1 ++ Group sp m1 m2 hin hout :: sp2) U
+      = prod_small_list (o:=o) e N (sp1 ++ sp ++ sp2) U.
+Proof.
+  exact (fun K o e N sp1 sp sp2 m1 m2 hin hout U =>
+           conj (@prod_small_list_app K o e N sp1 sp2 U)
+                (@prod_small_list_group K o e N sp1 sp m1 m2 hin hout sp2 U)).
+Qed.
+Print Assumptions C01_ordered_product_concatenates.
+
 (* the documented component transformations are unitary for all parameter values *)
 Theorem C01_component_matrices_unitary :
   forall (K : Type) (o : ops K) (SRK : StarRing o) n,
